@@ -125,7 +125,7 @@ def _prune(keep_key):
             keys.append(k)
     for d in dirs:
         k = os.path.basename(d).split("-")[1]
-        if k != keep_key and k not in keys[:2]:
+        if k != keep_key and k not in keys[:8]:
             shutil.rmtree(d, ignore_errors=True)
 
 
